@@ -142,6 +142,16 @@ def edit_torrent(metafile: str, args: dict) -> dict:
     if "piece layers" in meta:
         meta["piece layers"] = _sort_keys(meta["piece layers"])
     meta = _sort_keys(meta)
-    os.remove(metafile)
-    pyben.dump(meta, metafile)
+    # encode first, then swap the new file into place: the metafile path
+    # always holds either the complete old or the complete new contents.
+    data = pyben.dumps(meta)
+    temp = str(metafile) + ".tmp"
+    try:
+        with open(temp, "wb") as fd:
+            fd.write(data)
+        os.replace(temp, metafile)
+    except OSError:
+        if os.path.exists(temp):
+            os.remove(temp)
+        raise
     return meta
